@@ -138,17 +138,69 @@ def fq(h):
     return "%s::%s" % (h["file"][:-3], h["name"])
 
 
+def find_goto(h):
+    """newest goto binary of the harness below the kani target dir"""
+    best, bt = None, 0
+    root = os.path.join(KT, "kani")
+    for dp, dn, fn in os.walk(root):
+        if not dp.endswith("/out"):
+            continue
+        for f in fn:
+            if f.endswith(h["name"] + ".out") and not f.endswith(".symtab.out"):
+                t = os.path.getmtime(os.path.join(dp, f))
+                if t > bt:
+                    best, bt = os.path.join(dp, f), t
+    return best
+
+
+def loop_bounds(h):
+    """per-loop unwind bounds: the harness's `unwindset="regex:n;regex:n"` rules are matched against the
+    function names goto-instrument lists for the loops of the harness's goto binary"""
+    rules = [r.rsplit(":", 1) for r in h.get("unwindset", "").split(";") if r.strip()]
+    if not rules:
+        return None
+    cmd = ["cargo", "kani", "--only-codegen", "--harness", fq(h), "--exact", "--target-dir", KT]
+    if h["stubbing"]:
+        cmd += ["-Z", "stubbing"]
+    rc, out, _ = run(cmd, KANI_DIR, 1800, log=os.path.join(LOGS, h["name"] + ".codegen.log"))
+    g = find_goto(h)
+    if rc != 0 or not g:
+        return None
+    rc, out, _ = run(["goto-instrument", "--show-loops", g], KANI_DIR, 300)
+    pairs = []
+    cur = None
+    for ln in out.splitlines():
+        m = re.match(r"^Loop (\S+):\s*$", ln)
+        if m:
+            cur = m.group(1)
+            continue
+        m = re.search(r"function (.*)$", ln)
+        if m and cur:
+            fn = m.group(1)
+            for rx, n in rules:
+                if re.search(rx, fn):
+                    pairs.append("%s:%s" % (cur, n))
+                    break
+            cur = None
+    return ",".join(pairs)
+
+
 def kani_cmd(h, extra=()):
     cmd = ["cargo", "kani", "--harness", fq(h), "--exact", "--target-dir", KT]
     z = []
     if h["stubbing"]:
         z += ["-Z", "stubbing"]
+    us = None
     if h.get("unwindset"):
-        z += ["-Z", "unstable-options"]
+        if "_unwindset_resolved" not in h:
+            h["_unwindset_resolved"] = loop_bounds(h)
+        us = h["_unwindset_resolved"]
+    z += ["-Z", "unstable-options"]
     cmd += z
     cmd += list(extra)
-    if h.get("unwindset"):
-        cmd += ["--cbmc-args", "--unwindset", h["unwindset"]]
+    cmd += ["--cbmc-args", "--unwind", str(h.get("unwind", "2"))]
+    if us:
+        cmd += ["--unwindset", us]
     return cmd
 
 
@@ -233,11 +285,13 @@ def build_replay(profile):
     return ok, path
 
 
-def native_replay(name, tape, profile="debug"):
+def native_replay(name, tape, profile="debug", focus=""):
     ok, path = build_replay(profile)
     if not ok:
         return dict(outcome="build-failed")
-    rc, out, _ = run([os.path.join(path, "replay"), name, ",".join(tape) if tape else "-"], VERIF, 120)
+    env2 = dict(ENV)
+    env2["SV_FOCUS"] = focus
+    rc, out, _ = run([os.path.join(path, "replay"), name, ",".join(tape) if tape else "-"], VERIF, 120, env=env2)
     last = [l for l in out.splitlines() if l.startswith("{")]
     try:
         return json.loads(last[-1])
@@ -282,7 +336,7 @@ def match_known(known, prop, harness, label):
     return None
 
 
-def decide_harness(h, tier, jobs_note=""):
+def decide_harness(h, tier, prop=""):
     """run one harness; returns a result record"""
     name = h["name"]
     log = os.path.join(LOGS, name + ".log")
@@ -291,7 +345,7 @@ def decide_harness(h, tier, jobs_note=""):
     rec = dict(harness=name, kind=h.get("kind", "?"), bounds=h.get("bounds", ""), wall_s=round(wall, 1),
                status=r["status"], checks=r["checks"], covers=list(r["covers"]),
                funcs=sorted(r["funcs"]), verification_s=r["vtime"], stubs=[a for a in h["attrs"] if "stub" in a],
-               unwind=[a for a in h["attrs"] if "unwind" in a], failed=[], verdict=None)
+               unwind=["unwind=%s" % h.get("unwind", "2")] + ([h["unwindset"]] if h.get("unwindset") else []), failed=[], verdict=None)
     if rc == -999:
         rec["verdict"] = "timeout"
         return rec
@@ -304,21 +358,35 @@ def decide_harness(h, tier, jobs_note=""):
         return rec
     if r["status"] == "FAILED":
         rec["failed"] = [dict(check=a, desc=b, loc=c) for a, b, c in r["failed"]][:20]
-        if r["unwind_fail"] and all("unwinding assertion" in b for _, b, _ in r["failed"]):
+        if r["unwind_fail"]:
             rec["verdict"] = "unwind-too-small"
             return rec
-        # counterexample: ask for concrete values
+        # attribution: assertions are labelled with the property they decide; unlabelled checks are
+        # the built-in ones (panic, overflow, bounds, pointer validity) and count for every property
+        lab = re.compile(r"^C\d\d\d? ")
+        rel = [x for x in r["failed"] if x[1].startswith(prop + " ") or not lab.match(x[1])]
+        other = sorted({x[1][:3] for x in r["failed"] if lab.match(x[1]) and not x[1].startswith(prop + " ")})
+        rec["other_props_failing"] = other
+        if not rel:
+            # the obligations of this property inside the harness were all discharged
+            rec["verdict"] = "holds"
+            rec["failed"] = []
+            return rec
+        rec["failed"] = [dict(check=a, desc=b, loc=c) for a, b, c in rel][:20]
+        # counterexample for this property: rebuild with only its assertions active
+        env2 = dict(ENV)
+        env2["SV_FOCUS"] = prop
         log2 = os.path.join(LOGS, name + ".playback.log")
         rc2, out2, wall2 = run(kani_cmd(h, ["-Z", "concrete-playback", "--concrete-playback=print"]),
-                               KANI_DIR, h["timeout"], h["mem"], log2)
+                               KANI_DIR, h["timeout"], h["mem"], log2, env=env2)
         rec["wall_s"] = round(wall + wall2, 1)
         tape = parse_playback(out2)
         rec["tape"] = tape
         if tape is None:
             rec["verdict"] = "cex-no-tape"
             return rec
-        nat = native_replay(name, tape, "debug")
-        natr = native_replay(name, tape, "release")
+        nat = native_replay(name, tape, "debug", prop)
+        natr = native_replay(name, tape, "release", prop)
         rec["native_debug"] = nat
         rec["native_release"] = natr
         if nat.get("outcome") == "fail" or natr.get("outcome") == "fail":
@@ -344,7 +412,7 @@ def main():
         rp = json.load(open(args[1]))
         bad = 0
         for prof in ("debug", "release"):
-            nat = native_replay(rp["harness"], rp["tape"], prof)
+            nat = native_replay(rp["harness"], rp["tape"], prof, rp.get("property", ""))
             print(prof, json.dumps(nat))
             if nat.get("outcome") == "fail":
                 bad = 1
@@ -398,7 +466,7 @@ def main():
         jobs = max(1, min(16, 56 // max(heavy, 1)))
     results = []
     with cf.ThreadPoolExecutor(max_workers=jobs) as ex:
-        futs = {ex.submit(decide_harness, h, tier): h for h in sel}
+        futs = {ex.submit(decide_harness, h, tier, prop): h for h in sel}
         for f in cf.as_completed(futs):
             r = f.result()
             results.append(r)
